@@ -26,6 +26,7 @@ RBF = 'dcl_data_structures/src/ring_buffer/ringbuffer/const_array_ring_buffer.rs
 EXE = 'dcl_data_structures/src/ring_buffer/executor/thread_pool_executor.rs'
 SPW = 'dcl_data_structures/src/ring_buffer/wait_strategy/spinlock_wait_strategy.rs'
 CSQ = 'dcl_data_structures/src/ring_buffer/utils/cursor_sequence.rs'
+BLK = 'dcl_data_structures/src/ring_buffer/wait_strategy/blocking_wait_strategy.rs'
 PUSH_LOOP = "        let mut all: Vec<&T> = Vec::new();\n        for item in self {\n            all.push(&item)\n        }\n        all\n"
 DEQ_TOVEC = ("        let mut v = Vec::with_capacity(self.len());\n        let mut deque = self.clone(); // clone to avoid mutating the original\n\n"
              "        for item in deque.make_contiguous().iter() {\n            v.push(item.clone());\n        }\n\n        v\n")
@@ -131,6 +132,19 @@ EDITS = {
          "        let available = get_min_cursor_sequence(dependencies);\n        loop {"),
         ('BREAK', 'maximum instead of minimum (refused)', CSQ, ".min()", ".max()"),
         ('BREAK', 'first cursor skipped (refused)', CSQ, "        .iter()\n", "        .iter()\n        .skip(1)\n"),
+        ('QUIET', 'blocking: branches swapped', BLK,
+         "            if available >= sequence {\n                return Some(available);\n            } else {\n                let _guard = self.cvar.wait(blocked).unwrap();\n            }",
+         "            if available < sequence {\n                let _guard = self.cvar.wait(blocked).unwrap();\n            } else {\n                return Some(available);\n            }"),
+        ('BREAK', 'blocking: alert read before the lock is taken', BLK,
+         "            let blocked = self.guard.lock().unwrap();\n            if check_alert() {\n                return None;\n            }",
+         "            if check_alert() {\n                return None;\n            }\n            let blocked = self.guard.lock().unwrap();"),
+        ('BREAK', 'blocking: minimum computed outside the lock', BLK,
+         "            let blocked = self.guard.lock().unwrap();\n            if check_alert() {\n                return None;\n            }\n\n            let available = get_min_cursor_sequence(dependencies);",
+         "            let available = get_min_cursor_sequence(dependencies);\n            let blocked = self.guard.lock().unwrap();\n            if check_alert() {\n                return None;\n            }\n"),
+        ('BREAK', 'blocking: signal notifies without the lock', BLK,
+         "        let _guard = self.guard.lock().unwrap();\n        self.cvar.notify_all();\n        drop(_guard);",
+         "        self.cvar.notify_all();"),
+        ('BREAK', 'blocking: notify_one (refused)', BLK, "self.cvar.notify_all();", "self.cvar.notify_one();"),
     ]),
 }
 
